@@ -394,6 +394,50 @@ fn alt_class(alt_s: &Option<Vec<Sig>>, i: usize, gs: Option<i32>) -> &'static st
 }
 
 /// default config, a small-period config and MA-kind variants of every (or one) indicator
+/// every integer parameter and MA length replaced by small values cycling through 2, 3, 4 from `start`
+/// (each replacement kept only if the configuration still validates)
+pub fn small_variant(c: &dyn IndCfg, start: u64) -> Box<dyn IndCfg> {
+	let keys = json_map(&c.to_json().unwrap());
+	let mut small = c.boxed_clone();
+	let mut k = start;
+	for (key, val) in &keys {
+		if val.is_u64() {
+			let mut t = small.boxed_clone();
+			if t.set(key, format!("{}", k)).is_ok() && t.validate() {
+				small = t;
+				k = 2 + (k - 1) % 3;
+			}
+		} else if val.is_object() {
+			let kind = val.as_object().unwrap().keys().next().unwrap().clone();
+			let kind = if kind == "lin_reg" { "linreg".to_string() } else { kind };
+			let mut t = small.boxed_clone();
+			if t.set(key, format!("{kind}-{}", k + 1)).is_ok() && t.validate() {
+				small = t;
+				k = 2 + (k - 1) % 3;
+			}
+		}
+	}
+	small
+}
+
+/// default, and the small-period variants starting at 2, 3 and 4 (other parities / residues of every length)
+pub fn indicator_configs_small3(name: &str) -> Vec<Box<dyn IndCfg>> {
+	let mut v: Vec<Box<dyn IndCfg>> = vec![];
+	for c in defaults() {
+		if c.const_name() != name {
+			continue;
+		}
+		v.push(c.boxed_clone());
+		for start in [2u64, 3, 4] {
+			let s = small_variant(c.as_ref(), start);
+			if s.validate() && !v.iter().any(|x| x.to_json().ok() == s.to_json().ok()) {
+				v.push(s);
+			}
+		}
+	}
+	v
+}
+
 pub fn indicator_configs(only: Option<&str>, with_kinds: bool) -> Vec<Box<dyn IndCfg>> {
 	let mut v = vec![];
 	for c in defaults() {
@@ -404,25 +448,7 @@ pub fn indicator_configs(only: Option<&str>, with_kinds: bool) -> Vec<Box<dyn In
 		}
 		v.push(c.boxed_clone());
 		let keys = json_map(&c.to_json().unwrap());
-		let mut small = c.boxed_clone();
-		let mut k = 2;
-		for (key, val) in &keys {
-			if val.is_u64() {
-				let mut t = small.boxed_clone();
-				if t.set(key, format!("{}", k)).is_ok() && t.validate() {
-					small = t;
-					k = 2 + (k - 1) % 3;
-				}
-			} else if val.is_object() {
-				let kind = val.as_object().unwrap().keys().next().unwrap().clone();
-				let kind = if kind == "lin_reg" { "linreg".to_string() } else { kind };
-				let mut t = small.boxed_clone();
-				if t.set(key, format!("{kind}-{}", k + 1)).is_ok() && t.validate() {
-					small = t;
-					k = 2 + (k - 1) % 3;
-				}
-			}
-		}
+		let small = small_variant(c.as_ref(), 2);
 		if small.validate() && small.to_json().ok() != c.to_json().ok() {
 			v.push(small.boxed_clone());
 		}
